@@ -35,14 +35,17 @@ CARRIED = {
     # TENTATIVE new state and commit nothing (commit happens in update_statevars on success only): that is the C01
     # contract of the real SolidBody around a material with stored state variables
     # ... external-load items ramped through update() (PointLoad) are the C14 `loads` contract
+    # ... "a linear problem converges with the first update" needs matrix == d vector / d unknowns of EVERY item, also the penalty
+    # items (MPC with its centre among the points, contact): C01 `constraints_and_loads`; continuation from the previous
+    # converged state across substeps is the x0 hand-over of Job.evaluate (C15)
     # ... and the vector of current values that partition() reads (u0 = values[dof0]) is the C08 `container` contract
-    "C07": [("C01", "solidbody", _stateful), ("C14", "loads", lambda cfg: cfg.get("item") == "pointload"), ("C08", "container", None)],
+    "C07": [("C01", "solidbody", _stateful), ("C14", "loads", lambda cfg: cfg.get("item") == "pointload"), ("C08", "container", None), ("C01", "constraints_and_loads", None), ("C15", "Job.evaluate", None)],
     # C15 also: the state vector a user material's history reaches the solid body through is MaterialStrain's (C03
     # framework contract around any user material); the step / substep counters a user callback of a
     # CharacteristicCurve receives are the C09 `curve_callback` contract; "for elastic materials the final state is
     # independent of how the load path is subdivided" needs the built-in incremental laws to add exactly the stress of the
     # strain INCREMENT to the stored stress (C03 `small_strain`: elastic update, elastic step keeps the plastic state)
-    "C15": [("C01", "solidbody", _stateful), ("C03", "small_strain_user", None), ("C03", "small_strain", None), ("C03", "composite", None), ("C09", "curve_callback", None), ("C14", "loads", lambda cfg: cfg.get("item") == "pointload"), ("C12", "handcoded", _ogden_roxburgh_pair), ("C07", "fun_items_jac_items", None)],
+    "C15": [("C01", "solidbody", _stateful), ("C03", "small_strain_user", None), ("C03", "small_strain", None), ("C03", "composite", None), ("C09", "curve_callback", None), ("C14", "loads", lambda cfg: cfg.get("item") == "pointload"), ("C12", "handcoded", _ogden_roxburgh_pair), ("C07", "fun_items_jac_items", None), ("C01", "formitem_update", None)],
     # solid bodies on mixed u/p/J fields are verified against StubMixedMaterial (blocks == mixed derivatives of the
     # three-field functional), follower loads against StubAreaChange (cofactor and its derivative)
     # ... and the block placement of mixed-field matrices (upper-triangle storage / full block lists) is C02 `mixed_blocks`
@@ -52,7 +55,9 @@ CARRIED = {
     "C01": [("C03", "mixed", None), ("C03", "kinematics", None), ("C02", "mixed_blocks", None), ("C10", "uniform_region", None), ("C07", "fun_items_jac_items", None), ("C14", "loads", None)],
     # regions evaluate the element tables at the points of their default rules: the element identities are C04, the rules
     # (incl. that inv() leaves the shared default scheme alone) C05; the padded plane-strain hessian is C10 `planestrain_hess`
-    "C06": [("C05", "scheme", lambda cfg: cfg.get("tier") != "thorough"), ("C10", "planestrain_hess", None), ("C04", "element", lambda cfg: cfg.get("tier") != "thorough")],
+    # ... "differential volumes ... equal across element families on the same geometry": the higher-order meshes the
+    # families are compared on come from the library's own mid-point insertion (C16 `midpoints`: centroids of edges / faces / cells)
+    "C06": [("C05", "scheme", lambda cfg: cfg.get("tier") != "thorough"), ("C10", "planestrain_hess", None), ("C04", "element", lambda cfg: cfg.get("tier") != "thorough"), ("C16", "midpoints", lambda cfg: cfg.get("tier") != "thorough")],
     # condensed vs explicit three-field: the explicit side is the real NearlyIncompressible / ThreeFieldVariation law
     # whose blocks are the C03 `mixed` contract
     # ... the condensed body's matrix (anchor file _solidbody_incompressible.py) is C01 `nearly_incompressible`; the commit of
@@ -66,15 +71,19 @@ CARRIED = {
     "C14": [("C03", "kinematics", None), ("C11", "lagrange", None), ("C11", "wrapper", None), ("C11", "handcoded", lambda cfg: cfg.get("part") == "balance"), ("C04", "element", lambda cfg: cfg.get("tier") != "thorough"), ("C13", "cell", lambda cfg: cfg.get("clause") in ("closure", "faces")), ("C13", "mask", None), ("C05", "scheme", lambda cfg: cfg.get("tier") != "thorough")],
     # hand-coded vs differentiated versions are compared on the plain call; the hand-coded models' out= buffer variants
     # (what a solid body actually calls) are the C03 `handcoded` contract
-    "C12": [("C03", "handcoded", None)],
+    # ... micro-sphere models of both back ends integrate over the Bazant-Oh sphere rule (C05 `scheme`: isotropy of the tangent at
+    # F = I needs the exact second / fourth moments); the small-strain framework's linear-elastic law agrees with LinearElastic only
+    # if the framework stores the TOTAL strain (C03 `small_strain`)
+    "C12": [("C03", "handcoded", None), ("C05", "scheme", lambda cfg: cfg.get("scheme") == "BazantOh"), ("C03", "small_strain", None)],
     # the reaction-force curve of a homogeneous problem is recorded by CharacteristicCurve through Job.evaluate /
     # Step.generate (ramp subdivision, x0 hand-over): their E2 contracts live in C15
     # ... and the boundary conditions of the uniaxial / biaxial / shear load cases (dof.symmetry and friends) are the
     # C08 `loadcase` contract (grid stand-in excluded: bounded)
     # the numbering of cell-less points (get_dof0) and of multi-body dual fields (FieldDual / FieldsMixed: mesh.dual with
     # offset / npoints) comes from the mesh bookkeeping, under contract in C16
-    # ... and the (row field, column field) placement of a full list of blocks is C02 `mixed_blocks`
-    "C08": [("C16", "update_bookkeeping", None), ("C16", "structure", lambda cfg: cfg.get("op") == "dual"), ("C02", "mixed_blocks", None)],
+    # ... and the (row field, column field) placement of a full list of blocks is C02 `mixed_blocks`, the (point, component) row /
+    # column of a single-field form C02 `cartesian`; a load on field n lands at offsets[n] + dim_n p + i also after update(): C14 `loads`
+    "C08": [("C16", "update_bookkeeping", None), ("C16", "structure", lambda cfg: cfg.get("op") == "dual"), ("C02", "mixed_blocks", None), ("C02", "cartesian", None), ("C14", "loads", lambda cfg: cfg.get("item") == "pointload")],
     # duplicate-point merging of the meshes of a container (one shared merged points array, cells renumbered consistently)
     # is stated with the container's file round trip in C20
     "C16": [("C20", "MeshContainer", None)],
@@ -83,7 +92,8 @@ CARRIED = {
     "C13": [("C05", "scheme", lambda cfg: "Boundary" in str(cfg.get("scheme"))), ("C04", "element", lambda cfg: cfg.get("tier") != "thorough")],
     # averaging at the points divides by mesh.cells_per_point (C16 bookkeeping)
     # ... projection / extrapolation reproduce fields of the element's polynomial space: the element identities (C04, 3 s)
-    "C19": [("C16", "update_bookkeeping", None), ("C04", "element", lambda cfg: cfg.get("tier") != "thorough")],
+    # ... extrapolation to the points pairs quadrature point q with cell point q: the default rule of RegionLagrange follows `permute` (C06)
+    "C19": [("C16", "update_bookkeeping", None), ("C04", "element", lambda cfg: cfg.get("tier") != "thorough"), ("C06", "lagrange", lambda cfg: cfg.get("permute") is False and cfg.get("tier") != "thorough")],
     # the free unknowns of a modal analysis are those of dof.partition over the job's boundaries: the selection a Boundary
     # makes (all fx / fy / fz / mode / skip / mask options) is the C08 `boundary` contract
     # ... "exactly six zero-frequency modes" needs a stiffness without spurious zero-energy modes: the default rule of every region
